@@ -38,9 +38,11 @@ META = {
                 'D2 descriptor negotiation concludes',
                 'D3 mechanisms in order, at most once; exhaustion closes',
                 'D4 no silent transition', 'D5 unknown line closes',
-                'D6 attribute discipline'],
+                'D6 attribute discipline',
+                'D7 line framing independent of read splitting (shared with '
+                'C04-D5/D6)'],
     'undecided': ['the cookie file lookup itself',
-                  'splitting of lines across reads (C04-D6)'],
+                  ],
 }
 
 
@@ -237,6 +239,9 @@ def run(ctx):
                        'read raises AttributeError (inside the cookie '
                        'mechanism this turns every DBUS_COOKIE_SHA1 attempt '
                        'into ERROR)' % n.attr, nontrivial=False)
+    from .c04 import shared_line_framing
+    shared_line_framing(ctx, 'C07.D7', 'C07.D7')
+    ctx.floor('C07.D7', 3)
     ctx.floor('C07.D1', 4)
     ctx.floor('C07.D2', 6)
     ctx.floor('C07.D3', 8)
